@@ -34,7 +34,8 @@ class C17(Check):
                   'the observations of the model equal those of the spec (refinement by induction over the history). K/H0/ipad/opad '
                   'are regenerated from the source on every run and proved equal to the standard. The model is tied to the code by '
                   'running the extracted model, the extracted spec and the ASan/UBSan build of the working tree on the same '
-                  'histories (results, byte counter and the eight state words compared after every operation).')
+                  'histories (results, byte counter, the eight state words and the 64-byte block buffer - stale bytes included - compared '
+                  'after every operation).')
     level_note = ('Trusted: Coq kernel, the FIPS 180-4 / RFC 2104 transcription (ShaSpec.v; guarded by three known-answer Examples: '
                   'FIPS "abc", RFC 4231 cases 2 and 6, and by python hashlib/hmac in extra_checks), extraction + OCaml driver, harness, '
                   'table translator. Side conditions of the theorems: bytes are 0..255 and everything that is finalized is shorter '
